@@ -1,231 +1,142 @@
 /-
-  Lemmas about the PPT model: the exact guard under which today's (unchecked) unpack functions
-  do not panic, and totality of the checked variants.  Proof file.
+  Lemmas about the PPT model: with no bare site in the table the functions never panic.
+  Proof file.
 -/
 import Nexus.Client.Sites
 
 namespace Nexus.Client
 open Nexus.Gen
 
-/-- Exact guard of `unpackPPTPayload`: the inputs on which the unchecked code does not panic. -/
-def pptSafe (deser : Deser) (details : Dict) (args : List Val) : Bool :=
-  let native : Bool := match args with
-    | .payload false _ _ :: _ => true
-    | _ => false
-  match details.get? N.OptPPTSerializer with
-  | none => native
-  | some (.str s) =>
-    if s == "native" then native
-    else if Client.PPTSerializers.contains s then
-      match args with
-      | .bin b :: _ => (match deser s b with | .nil => false | _ => true)
-      | _ => false
-    else true
-  | some _ => false
-
-/-- Exact guard of `unpackE2EEPayload`. -/
-def e2eeSafe (details : Dict) (args : List Val) : Bool :=
-  match details.get? N.OptPPTSerializer with
-  | some (.str s) =>
-    if Client.E2eeSerializers.contains s then
-      match args with
-      | .bin _ :: _ => true
-      | _ => false
-    else true
-  | _ => false
-
-/-- Guard of the dispatch on the scheme. -/
-def schemeSafe (deser : Deser) (scheme : String) (details : Dict) (args : List Val) : Bool :=
-  if scheme == Client.WampPPTScheme then e2eeSafe details args else pptSafe deser details args
-
-/-- Guard of the callers: no scheme, an invalid scheme, or a safe unpack. -/
-def callerSafe (deser : Deser) (details : Dict) (args : List Val) : Bool :=
-  let scheme := details.optString N.OptPPTScheme
-  scheme == "" || !isPPTSchemeValid scheme || schemeSafe deser scheme details args
-
-@[simp] theorem bare_false_isPanic (fn kind expr : String) (e : PptErr) :
-    (bare false fn kind expr e).isPanic = true := rfl
-
-@[simp] theorem bare_true_isPanic (fn kind expr : String) (e : PptErr) :
-    (bare true fn kind expr e).isPanic = false := rfl
-
-theorem nativePayload_panics_iff (args : List Val) :
-    (nativePayload false args).isPanic =
-      !(match args with | .payload false _ _ :: _ => true | _ => false) := by
-  unfold nativePayload
-  cases args with
-  | nil => simp
-  | cons a rest =>
-    cases a with
-    | payload n x y => cases n <;> simp
-    | _ => simp
-
-theorem unpackPPT_panics_iff (deser : Deser) (details : Dict) (args : List Val) :
-    (unpackPPTPayload false deser details args).isPanic = !pptSafe deser details args := by
-  unfold unpackPPTPayload pptSafe
-  cases details.get? N.OptPPTSerializer with
-  | none => simp [nativePayload_panics_iff]
-  | some v =>
-    cases v with
-    | str s =>
-      by_cases h1 : (s == "native") = true
-      · simp [h1, nativePayload_panics_iff]
-      · by_cases h2 : s ∈ Client.PPTSerializers
-        · simp only [h1, h2, List.contains_iff_mem, if_true, if_false, decide_true, Bool.true_and, Bool.false_eq_true]
-          cases args with
-          | nil => simp
-          | cons a rest =>
-            cases a with
-            | bin b => cases h : deser s b <;> simp [h]
-            | _ => simp
-        · simp [h1, h2]
-    | _ => simp
-
-theorem unpackE2EE_panics_iff (deser : Deser) (details : Dict) (args : List Val) :
-    (unpackE2EEPayload false deser details args).isPanic = !e2eeSafe details args := by
-  unfold unpackE2EEPayload e2eeSafe
-  cases details.get? N.OptPPTSerializer with
-  | none => simp
-  | some v =>
-    cases v with
-    | str s =>
-      by_cases h2 : s ∈ Client.E2eeSerializers
-      · simp only [h2, List.contains_iff_mem, if_true, decide_true, Bool.true_and]
-        cases args with
-        | nil => simp
-        | cons a rest =>
-          cases a with
-          | bin b => cases h : deser s b <;> simp [h]
-          | _ => simp
-      · simp [h2]
-    | _ => simp
-
-theorem unpackByScheme_panics_iff (deser : Deser) (scheme : String) (details : Dict) (args : List Val) :
-    (unpackByScheme false deser scheme details args).isPanic = !schemeSafe deser scheme details args := by
-  unfold unpackByScheme schemeSafe
-  split
-  · exact unpackE2EE_panics_iff ..
-  · exact unpackPPT_panics_iff ..
-
 @[simp] theorem map_isPanic {α β} (f : α → β) (o : Outcome α) : (o.map f).isPanic = o.isPanic := by
   cases o <;> rfl
 
-theorem eventPpt_panics_iff (deser : Deser) (details : Dict) (args : List Val) (kw : Dict) :
-    (eventPpt false deser details args kw).isPanic = !callerSafe deser details args := by
-  unfold eventPpt callerSafe
-  simp only
-  by_cases h1 : details.optString N.OptPPTScheme = ""
-  · simp [h1]
-  · by_cases h2 : isPPTSchemeValid (details.optString N.OptPPTScheme) = true
-    · simp [h1, h2, unpackByScheme_panics_iff]
-    · simp [h1, h2]
+section clean
+variable {F : PptFacts} (hF : F.clean)
+include hF
 
-theorem invocationPpt_panics_iff (deser : Deser) (details : Dict) (args : List Val) (kw : Dict) :
-    (invocationPpt false deser details args kw).isPanic = !callerSafe deser details args := by
-  unfold invocationPpt callerSafe
-  simp only
-  by_cases h1 : details.optString N.OptPPTScheme = ""
-  · simp [h1]
-  · by_cases h2 : isPPTSchemeValid (details.optString N.OptPPTScheme) = true
-    · simp [h1, h2, unpackByScheme_panics_iff]
-    · simp [h1, h2]
+theorem clean_bare (fn kind expr : String) (h : (fn, kind, expr) ∈ modelSites) : F.bare fn kind expr = false :=
+  hF.1 (fn, kind, expr) h
 
-theorem prepareCallResult_panics_iff (deser : Deser) (details : Dict) (args : List Val) (kw : Dict) :
-    (prepareCallResult false deser true details args kw).isPanic = !callerSafe deser details args := by
-  unfold prepareCallResult callerSafe
-  simp only
-  by_cases h1 : details.optString N.OptPPTScheme = ""
-  · simp [h1]
-  · by_cases h2 : isPPTSchemeValid (details.optString N.OptPPTScheme) = true
-    · simp [h1, h2, unpackByScheme_panics_iff]
-    · simp [h1, h2]
+theorem atSite_clean (fn kind expr : String) (e : PptErr) (h : (fn, kind, expr) ∈ modelSites) :
+    (atSite F fn kind expr e).isPanic = false := by
+  simp [atSite, clean_bare hF fn kind expr h]
 
-theorem prepareCallResult_noPPT (checked : Bool) (deser : Deser) (details : Dict) (args : List Val) (kw : Dict) :
-    (prepareCallResult checked deser false details args kw).isPanic = false := by
-  unfold prepareCallResult
-  simp only
-  split <;> simp
+theorem nilPayload_clean : (nilPayload F).isPanic = false := by
+  simp [nilPayload, hF.2]
 
-/-! ### the checked variants never panic -/
-
-theorem nativePayload_checked (args : List Val) : (nativePayload true args).isPanic = false := by
+theorem nativePayload_clean (args : List Val) : (nativePayload F args).isPanic = false := by
   unfold nativePayload
   cases args with
-  | nil => simp
+  | nil => exact atSite_clean hF _ _ _ _ (by simp [modelSites])
   | cons a rest =>
     cases a with
-    | payload n x y => cases n <;> simp
-    | _ => simp
+    | payload n x y => cases n <;> simp [nilPayload_clean hF]
+    | _ => simp [clean_bare hF "unpackPPTPayload" "assert" "args[0].(*wamp.PassthruPayload)" (by simp [modelSites]),
+                 nilPayload_clean hF]
 
-theorem unpackPPT_checked (deser : Deser) (details : Dict) (args : List Val) :
-    (unpackPPTPayload true deser details args).isPanic = false := by
+theorem unpackPPT_clean (deser : Deser) (details : Dict) (args : List Val) :
+    (unpackPPTPayload F deser details args).isPanic = false := by
+  have hname : ∀ s, (if Client.PPTSerializers.contains s then
+      (match args with
+        | [] => atSite F "unpackPPTPayload" "index" "args[0]" .serialization
+        | .bin b :: _ =>
+          (match deser s b with
+            | .err => Outcome.ok (Except.error PptErr.serialization)
+            | .nil => nilPayload F
+            | .val a k => .ok (.ok (a, k)))
+        | _ :: _ => atSite F "unpackPPTPayload" "assert" "args[0].([]byte)" .serialization)
+      else (Outcome.ok (Except.error PptErr.serializerInvalid) : Outcome Unpacked)).isPanic = false := by
+    intro s
+    split
+    · cases args with
+      | nil => exact atSite_clean hF _ _ _ _ (by simp [modelSites])
+      | cons a rest =>
+        cases a with
+        | bin b => cases h : deser s b <;> simp [h, nilPayload_clean hF]
+        | _ => exact atSite_clean hF _ _ _ _ (by simp [modelSites])
+    · rfl
   unfold unpackPPTPayload
-  cases details.get? N.OptPPTSerializer with
-  | none => simp [nativePayload_checked]
-  | some v =>
-    cases v with
-    | str s =>
-      by_cases h1 : (s == "native") = true
-      · simp [h1, nativePayload_checked]
-      · by_cases h2 : s ∈ Client.PPTSerializers
-        · simp only [h1, h2, List.contains_iff_mem, if_true, if_false, decide_true, Bool.true_and, Bool.false_eq_true]
-          cases args with
-          | nil => simp
-          | cons a rest =>
-            cases a with
-            | bin b => cases h : deser s b <;> simp [h]
-            | _ => simp
-        · simp [h1, h2]
-    | _ => simp
+  split
+  · rfl
+  · simp only
+    cases details.get? N.OptPPTSerializer with
+    | none => exact nativePayload_clean hF _
+    | some v =>
+      cases v with
+      | str s =>
+        simp only
+        split
+        · exact nativePayload_clean hF _
+        · exact hname s
+      | _ =>
+        simp only [clean_bare hF "unpackPPTPayload" "assert" "pptSerializerStr.(string)" (by simp [modelSites])]
+        exact hname ""
 
-theorem unpackE2EE_checked (deser : Deser) (details : Dict) (args : List Val) :
-    (unpackE2EEPayload true deser details args).isPanic = false := by
+theorem unpackE2EE_clean (deser : Deser) (details : Dict) (args : List Val) :
+    (unpackE2EEPayload F deser details args).isPanic = false := by
+  have hname : ∀ s, (if Client.E2eeSerializers.contains s then
+      (match args with
+        | [] => atSite F "unpackE2EEPayload" "index" "args[0]" .serialization
+        | .bin b :: _ =>
+          (match deser s b with
+            | .err => Outcome.ok (Except.error PptErr.serialization)
+            | .nil => .ok (.ok ([], []))
+            | .val a k => .ok (.ok (a, k)))
+        | _ :: _ => atSite F "unpackE2EEPayload" "assert" "args[0].([]byte)" .serialization)
+      else (Outcome.ok (Except.error PptErr.serializerInvalid) : Outcome Unpacked)).isPanic = false := by
+    intro s
+    split
+    · cases args with
+      | nil => exact atSite_clean hF _ _ _ _ (by simp [modelSites])
+      | cons a rest =>
+        cases a with
+        | bin b => cases h : deser s b <;> simp [h]
+        | _ => exact atSite_clean hF _ _ _ _ (by simp [modelSites])
+    · rfl
   unfold unpackE2EEPayload
-  cases details.get? N.OptPPTSerializer with
-  | none => simp
-  | some v =>
-    cases v with
-    | str s =>
-      by_cases h2 : s ∈ Client.E2eeSerializers
-      · simp only [h2, List.contains_iff_mem, if_true, decide_true, Bool.true_and]
-        cases args with
-        | nil => simp
-        | cons a rest =>
-          cases a with
-          | bin b => cases h : deser s b <;> simp [h]
-          | _ => simp
-      · simp [h2]
-    | _ => simp
+  split
+  · rfl
+  · simp only
+    cases details.get? N.OptPPTSerializer with
+    | none =>
+      simp only [clean_bare hF "unpackE2EEPayload" "assert" "details[wamp.OptPPTSerializer].(string)" (by simp [modelSites])]
+      exact hname ""
+    | some v =>
+      cases v with
+      | str s => exact hname s
+      | _ =>
+        simp only [clean_bare hF "unpackE2EEPayload" "assert" "details[wamp.OptPPTSerializer].(string)" (by simp [modelSites])]
+        exact hname ""
 
-theorem unpackByScheme_checked (deser : Deser) (scheme : String) (details : Dict) (args : List Val) :
-    (unpackByScheme true deser scheme details args).isPanic = false := by
+theorem unpackByScheme_clean (deser : Deser) (scheme : String) (details : Dict) (args : List Val) :
+    (unpackByScheme F deser scheme details args).isPanic = false := by
   unfold unpackByScheme
   split
-  · exact unpackE2EE_checked ..
-  · exact unpackPPT_checked ..
+  · exact unpackE2EE_clean hF ..
+  · exact unpackPPT_clean hF ..
 
-theorem eventPpt_checked (deser : Deser) (details : Dict) (args : List Val) (kw : Dict) :
-    (eventPpt true deser details args kw).isPanic = false := by
+theorem eventPpt_clean (deser : Deser) (details : Dict) (args : List Val) (kw : Dict) :
+    (eventPpt F deser details args kw).isPanic = false := by
   unfold eventPpt
   simp only
   split
   · simp
   · split
     · simp
-    · simp [unpackByScheme_checked]
+    · simp [unpackByScheme_clean hF]
 
-theorem invocationPpt_checked (deser : Deser) (details : Dict) (args : List Val) (kw : Dict) :
-    (invocationPpt true deser details args kw).isPanic = false := by
+theorem invocationPpt_clean (deser : Deser) (details : Dict) (args : List Val) (kw : Dict) :
+    (invocationPpt F deser details args kw).isPanic = false := by
   unfold invocationPpt
   simp only
   split
   · simp
   · split
     · simp
-    · simp [unpackByScheme_checked]
+    · simp [unpackByScheme_clean hF]
 
-theorem prepareCallResult_checked (deser : Deser) (dealerPPT : Bool) (details : Dict) (args : List Val) (kw : Dict) :
-    (prepareCallResult true deser dealerPPT details args kw).isPanic = false := by
+theorem prepareCallResult_clean (deser : Deser) (dealerPPT : Bool) (details : Dict) (args : List Val) (kw : Dict) :
+    (prepareCallResult F deser dealerPPT details args kw).isPanic = false := by
   unfold prepareCallResult
   simp only
   split
@@ -234,6 +145,14 @@ theorem prepareCallResult_checked (deser : Deser) (dealerPPT : Bool) (details : 
     · simp
     · split
       · simp
-      · simp [unpackByScheme_checked]
+      · simp [unpackByScheme_clean hF]
+
+end clean
+
+/-- The source as it is now has no bare site and checks the pointer. -/
+theorem gen_clean : PptFacts.gen.clean := by
+  constructor
+  · decide
+  · decide
 
 end Nexus.Client
